@@ -119,6 +119,30 @@ func init() {
 	add("C16", "C08", "C08.R2~layout-sides")
 	// the consolidated value of a coarser slot is a write to that slot as well: skipped, the slot keeps a stale lap
 	add("C01", "C02", "C02.R6")
+	// the window the commands work on is the one the flags spell
+	for _, pp := range []string{"C08", "C09", "C10", "C11"} {
+		add(pp, "C19", "C19.R2~^cmd\\.timestampValue")
+	}
+	// what Open reads first lies inside every valid file; the six storable methods are the ones the reference writes
+	add("C06", "C14", "C14.R5~first-read")
+	add("C06", "C02", "C02.R2~^validateAggregationMethod")
+	// a repeated single write re-establishes the coarser levels
+	add("C02", "C03", "C03.R4~writes-and-propagates")
+	// a series has as many values as its window and step say, whatever the archive's first slot holds
+	add("C15", "C04", "C04.R1")
+	// a command value can be executed again: the default of until is taken per run, not written back
+	add("C16", "C08", "C08.R3~until-default")
+	// diff looks at the destination it was given
+	add("C16", "C09", "C09.R2~reads-named-files")
+	// the header shown (and streamed) is the header the file stores
+	add("C18", "C14", "C14.R5~stores-decoded-header")
+	add("C12", "C14", "C14.R5~stores-decoded-header")
+	// each archive of a remote read is decoded into its own object
+	add("C08", "C12", "C12.R4~^readWhisperFile:")
+	add("C09", "C12", "C12.R4~^readWhisperFile:")
+	add("C10", "C12", "C12.R4~^sumWhisperFile:")
+	add("C11", "C12", "C12.R4~^sumWhisperFile:")
+	add("C18", "C12", "C12.R4~^readWhisperFile(Raw)?:")
 	// the coarser levels are recomputed from what the batch writer hands on
 	add("C02", "C03", "C03.R5~propagates-what-it-wrote")
 	// the method a file names (by text or by number) is the method aggregate applies
